@@ -471,6 +471,13 @@ func runTopLevel(c *core.Case) {
 // emptyMessagePointer: a non-nil pointer to a struct that encodes to zero bytes cannot be told
 // from a nil pointer on the wire as this package writes it (known finding empty-message-pointer).
 func emptyMessagePointer(a reflect.Value) bool {
+	// through a chain of non-nil pointers (*T, **T): the message at the end is what is encoded
+	for a.Type().Elem().Kind() == reflect.Pointer {
+		a = a.Elem()
+		if a.IsNil() {
+			return false
+		}
+	}
 	if a.Type().Elem().Kind() != reflect.Struct {
 		return false
 	}
